@@ -277,6 +277,37 @@ func c19Case(c *hx.Ctx, r *hx.RNG, idx int64) {
 			}
 			m.latched = false
 		case op < 72:
+			if r.Chance(12) {
+				// "If prec > MaxPrec, it is set to MaxPrec": requests beyond the 32-bit field, through SetPrec and New.
+				// Only cheap operations run at that precision (Quo and Sqrt allocate by precision); it is restored below.
+				big := []uint{1 << 32, 1<<32 + 7, 1<<32 + uint(r.Range(1, 4000)), math.MaxUint64, decimal.MaxPrec + 1, decimal.MaxPrec, 1<<40 + 3, math.MaxUint64 - 5}[r.Intn(8)]
+				note(fmt.Sprintf("SetPrec(%d)", big))
+				c.Eval(r.U64(), true, "op/SetPrec/beyond-MaxPrec")
+				cx.SetPrec(big)
+				if cx.Prec() != decimal.MaxPrec {
+					bad("wrong-context-precision", "Prec() = %d after SetPrec(%d), want MaxPrec", cx.Prec(), big)
+					return
+				}
+				if c2 := dctx.New(big, decimal.RoundingMode(m.mode)); c2.Prec() != decimal.MaxPrec {
+					bad("wrong-context-precision", "New(%d, mode).Prec() = %d, want MaxPrec", big, c2.Prec())
+					return
+				}
+				if !m.latched {
+					xv, yv := genCtxVal(r), genCtxVal(r)
+					if xv.Form == oracle.Finite && yv.Form == oracle.Finite {
+						X, Y := hx.Mk(xv, digitsOf(xv), 0), hx.Mk(yv, digitsOf(yv), 0)
+						z := newRecv(int64(r.Range(0, 80)), r.Mode())
+						cx.Mul(z, X, Y)
+						got := hx.Snapshot(z)
+						want := oracle.Mul(xv, yv).Expect(decimal.MaxPrec, m.mode)
+						if got.Prec != decimal.MaxPrec || got.Mode != m.mode || !oracle.Equal(got.V, want.V) || got.Acc != 0 {
+							bad("not-rounded-to-context", "Mul(%s, %s) under a context at MaxPrec stored %s, want the exact product %s", xv.Full(), yv.Full(), got, want.V.Full())
+							return
+						}
+						c.Count("ops_at_MaxPrec_context", 1)
+					}
+				}
+			}
 			p := uint(r.Range(0, 70))
 			note(fmt.Sprintf("SetPrec(%d)", p))
 			cx.SetPrec(p)
